@@ -524,6 +524,13 @@ impl PrometheusBuilder {
         self.build_with_clock(Clock::new())
     }
 
+    /// Verification hook: public access to [`PrometheusBuilder::build_with_clock`] so that an external harness can
+    /// drive the idle timeout logic with a mocked clock.
+    #[cfg(metrics_verif)]
+    pub fn verif_build_with_clock(self, clock: Clock) -> PrometheusRecorder {
+        self.build_with_clock(clock)
+    }
+
     pub(crate) fn build_with_clock(self, clock: Clock) -> PrometheusRecorder {
         let inner = Inner {
             registry: Registry::new(GenerationalStorage::new(AtomicStorage)),
